@@ -303,9 +303,9 @@ func tagCompareLoops(r *Report, rt *Routine, flow *FlowResult, a *xAnalysis, ver
 	var out []tagLoop
 	seenBlk := map[int]bool{}
 	for idx := range rt.Instrs {
-		if !rt.InCycle[idx] {
-			continue
-		}
+		// a compare step is a cycle (a loop over windows of one width) or a block executed at most once (one stage of a
+		// quad/long/word/byte ladder); both are simulated the same way
+		inCycle := rt.InCycle[idx]
 		bi := a.blockOf[idx]
 		if seenBlk[bi] {
 			continue
@@ -496,12 +496,17 @@ func tagCompareLoops(r *Report, rt *Routine, flow *FlowResult, a *xAnalysis, ver
 			}
 		}
 		okCov := len(problems) == 0 && step[xBase] == int64(width) && step[yBase] == int64(width)
+		if !inCycle && len(problems) == 0 && step[xBase] == 0 && step[yBase] == 0 {
+			// a stage that runs at most once need not advance the pointers when nothing follows it; if something does, the
+			// bytes it re-reads leave a gap that the CONSUMPTION rule reports (the received tag is not read to its end)
+			okCov = true
+		}
 		for k := 0; k < width; k++ {
 			if !covered[k] {
 				okCov = false
 			}
 		}
-		r.Check(okCov, "TAG-COVERAGE", fmt.Sprintf("amd64/openAsm %d-byte compare loop", width), lp.pos, fmt.Sprintf("per iteration both tag pointers advance by %d / %d bytes and %d of the %d bytes of (received XOR expected) reach an accumulator%s", step[xBase], step[yBase], len(covered), width, ifs(len(problems) > 0, "; "+strings.Join(problems, "; "))))
+		r.Check(okCov, "TAG-COVERAGE", fmt.Sprintf("amd64/openAsm %d-byte compare %s", width, map[bool]string{true: "loop", false: "stage"}[inCycle]), lp.pos, fmt.Sprintf("per iteration both tag pointers advance by %d / %d bytes and %d of the %d bytes of (received XOR expected) reach an accumulator%s", step[xBase], step[yBase], len(covered), width, ifs(len(problems) > 0, "; "+strings.Join(problems, "; "))))
 		out = append(out, lp)
 	}
 	return out
